@@ -17,7 +17,7 @@ def run(ctx):
                         "node-level accounting state machine is covered by the NodeAcct stage (st_nodeacct) when present"]
     st_clustermodel.run_stage(ctx, PREFIXES, thorough=not ctx.quick)
     n = 240 if ctx.quick else 6000
-    st_cluster.run_stage(ctx, PREFIXES, [("fraction", n * 2 // 3), ("mixed", n // 3)])
+    st_cluster.run_stage(ctx, PREFIXES, [("fraction", n // 2), ("mixed", n // 4), ("sharers", n // 4)])
     if os.path.exists(os.path.join(os.path.dirname(__file__), "st_nodeacct.READY")):
         import st_nodeacct
         st_nodeacct.run_stage(ctx, ["C02_"])
